@@ -672,6 +672,15 @@ class Game(AsyncMode):
         if not self.player:
             await self._rotate_players()
 
+        # the player is on their next ball from the moment the turn begins (players
+        # can only be added while the game is on ball 1, see request_player_add)
+        self.player.ball += 1
+        '''player_var: ball
+
+        desc: The ball number for this player. If a player gets an extra ball,
+        this number won't change when they start the extra ball.
+        '''
+
         await self.machine.events.post_async('player_turn_will_start',
                                              player=self.player,
                                              number=self.player.number)
@@ -695,13 +704,6 @@ class Game(AsyncMode):
         args:
         player: The player object whose turn is starting.
         number: The player number
-        '''
-
-        self.player.ball += 1
-        '''player_var: ball
-
-        desc: The ball number for this player. If a player gets an extra ball,
-        this number won't change when they start the extra ball.
         '''
 
         await self.machine.events.post_async('player_turn_started',
